@@ -609,6 +609,76 @@ def run(rep, ctx):
                  "`return %s` converts long to int with no range check: an integer value beyond "
                  "INT_MAX silently becomes a different number" % render(v))
 
+    # ---- N1 --------------------------------------------------------------------------
+    # which spellings a numeric value may have (sign, exponent, inf, out-of-range -> +-HUGE_VAL / range error) is the
+    # grammar of the C library converter the helper hands the cursor to; the cursor must come back from the same call
+    n1 = rep.rule("C11.N1", "WHO-MAY-CALL",
+                  "a numeric option value is converted by the C library's strtod (real) / strtol base 10 (integer) applied to the "
+                  "cursor, the cursor continues at the end pointer of that call and the result is the converted number", floor=6)
+    for ty, conv, base in (("double", "strtod", None), ("int", "strtol", 10)):
+        pf = [x for x in funcs if x.qn == "mp::internal::OptionHelper::Parse" and "<%s>" % ty in x.full and x.unit == "src/solver.cc"]
+        if not pf:
+            raise AnalysisBroken("OptionHelper<%s>::Parse not found" % ty)
+        x = pf[0]
+        cur = x.params[0]
+        allconv = list(reach_calls(F, x, lambda c: c["k"] == "CallExpr" and re.match(r"^(std::)?(strto[a-z]+|ato[a-z]+|from_chars|sto[a-z]+|sscanf|__isoc99_sscanf)$", c.get("callee") or ""), 2))
+        good = [t for t in allconv if re.match(r"^(std::)?%s$" % conv, t[1].get("callee") or "")]
+        key = "%s-converter" % ty
+        if len(good) != 1 or len(allconv) != 1:
+            n1.fail(key, short_loc(x.loc), "OptionHelper<%s>::Parse converts the text with %s, expected exactly one call of %s"
+                    % (ty, sorted({t[1].get("callee") for t in allconv}) or "no library converter", conv))
+            n1.fail("%s-cursor" % ty, short_loc(x.loc), "no %s call whose end pointer the cursor could take" % conv)
+            n1.fail("%s-result" % ty, short_loc(x.loc), "no %s call whose value could be returned" % conv)
+            continue
+        anchor, call, res, owner = good[0]
+        a = call_args(call)
+        a0 = strip(res(strip(a[0])))
+        okarg = a0["k"] == "DeclRefExpr" and a0.get("declId") == cur["declId"]
+        if base is not None:
+            okarg = okarg and len(a) == 3 and cv(strip(a[2])) == base
+        n1.check(okarg, key, short_loc(call.get("l")), "%s(%s%s) reads the text at the cursor" % (conv, cur["name"], ", &end, %d" % base if base else ", &end"),
+                 "%s is applied to `%s`%s" % (conv, render(a0), "" if base is None else " with base `%s`" % render(a[2])))
+        # the end pointer: the variable whose address is the second argument, in Parse's own terms
+        a1 = strip(res(strip(a[1])))
+        endd = None
+        if a1["k"] == "UnaryOperator" and a1.get("op") == "&":
+            e_ = strip(kids(a1)[0])
+            if e_["k"] == "DeclRefExpr":
+                endd = e_.get("declId")
+        asg = [n for n in x.walk() if n["k"] == "BinaryOperator" and n.get("op") == "=" and strip(kids(n)[0])["k"] == "DeclRefExpr"
+               and strip(kids(n)[0]).get("declId") == cur["declId"]]
+        okasg = [n for n in asg if endd and strip(kids(n)[1])["k"] == "DeclRefExpr" and strip(kids(n)[1]).get("declId") == endd
+                 and x.cfg.dominates(anchor, n)]
+        direct = endd == cur["declId"]                 # strtod(s, const_cast<char**>(&s)): the cursor is the end pointer itself
+        rets = list(x.find(lambda n: n["k"] == "ReturnStmt"))
+        okc = direct and not asg or (len(asg) == len(okasg) and okasg and all(any(x.cfg.dominates(n, r) for n in okasg) for r in rets))
+        n1.check(bool(okc), "%s-cursor" % ty, short_loc(call.get("l")), "before every return the cursor is set to the end pointer of the %s call" % conv,
+                 "the cursor `%s` is not (only) set to the end pointer of the %s call before every return" % (cur["name"], conv))
+        okr = bool(rets)
+        why = ""
+        for r in rets:
+            e = strip(kids(r)[0])
+            for _ in range(6):
+                if e["k"] in ("CXXStaticCastExpr", "CStyleCastExpr", "CXXFunctionalCastExpr"):
+                    e = strip(kids(e)[-1])
+                elif e["k"] == "DeclRefExpr" and e.get("dk") == "Var":
+                    # a local initialised once with the call and never written again
+                    vd = [v_ for v_ in x.walk() if v_["k"] == "VarDecl" and v_.get("declId") == e.get("declId") and kids(v_)]
+                    wr = [n for n in x.walk() if n["k"] in ("BinaryOperator", "CompoundAssignOperator", "UnaryOperator")
+                          and (n.get("op") in ("=", "++", "--") or n["k"] == "CompoundAssignOperator")
+                          and strip(kids(n)[0])["k"] == "DeclRefExpr" and strip(kids(n)[0]).get("declId") == e.get("declId")]
+                    adr = [n for n in x.walk() if n["k"] == "UnaryOperator" and n.get("op") == "&" and strip(kids(n)[0]).get("declId") == e.get("declId")]
+                    if len(vd) != 1 or wr or adr:
+                        break
+                    e = strip(kids(vd[0])[0])
+                else:
+                    break
+            if not (e.get("i") == anchor.get("i") or (e["k"] == "CallExpr" and e.get("calleeId") == anchor.get("calleeId") and e.get("l") == anchor.get("l"))):
+                okr = False
+                why = "`return %s`" % render(kids(r)[0])
+        n1.check(okr, "%s-result" % ty, short_loc(call.get("l")), "the returned number is the value of the %s call" % conv,
+                 "%s does not return the value of the %s call" % (why, conv))
+
     class _OOB(Exception):
         pass
 
